@@ -815,7 +815,8 @@ func renderAgg(groups map[string][]aggRow, flags string) string {
 // runAgg runs the query; twice = some series holds a timestamp of the range in two containers
 // (the excluded case of an un-hinted eligible query: the time of a lone min/max is then not
 // compared, the statistics path sees rows the plain select does not show).
-func (h *history) runAgg(q aggQuery, raw map[int][]row, twice bool) (string, map[string][]aggRow) {
+func (h *history) runAgg(q aggQuery, raw map[int][]row, lay *layout) (string, map[string][]aggRow) {
+	twice := keyTwiceIn(lay, q.lo, q.hi)
 	var res []engine.VerifSeries
 	var err error
 	perr := hx.Safe(func() { res, err = h.sh.Query(q.sql(), qlFields, tagKeys, 0) })
@@ -918,6 +919,9 @@ func (h *history) runAgg(q aggQuery, raw map[int][]row, twice bool) (string, map
 	}
 	if raw != nil {
 		canonTies(q, groups, raw)
+	}
+	if twice && q.eligible() {
+		staleTies(q, groups, lay)
 	}
 	if lone && twice && q.eligible() && (q.calls[0].f == "min" || q.calls[0].f == "max") {
 		for _, rows := range groups {
@@ -1173,6 +1177,66 @@ func canonTies(q aggQuery, groups map[string][]aggRow, raw map[int][]row) {
 					if len(times) > 1 {
 						r.at = "@~"
 					}
+				}
+			}
+		}
+	}
+}
+
+// staleTies: in the excluded case (un-hinted, a key of the range in two containers) the statistics
+// path also sees the rows the plain select does not show. When the rows of all containers of the
+// group hold several values at the extreme time, which one first/last reports depends on where
+// the records are merged (the store keeps the larger value, the executor keeps false among
+// booleans): left open, as for ties among the rows of the plain select.
+func staleTies(q aggQuery, groups map[string][]aggRow, lay *layout) {
+	for g, rows := range groups {
+		for ri := range rows {
+			r := &rows[ri]
+			if len(r.vals) != len(q.calls) {
+				continue
+			}
+			for ci, cl := range q.calls {
+				if (cl.f != "first" && cl.f != "last") || r.vals[ci].null {
+					continue
+				}
+				x := colIdx(cl.col)
+				var ps []pt
+				add := func(s int, rw row) {
+					if groupOf(q.grp, s) == g && rw.t >= q.lo && rw.t <= q.hi && rw.cs[x].ok {
+						ps = append(ps, pt{rw.t, rw.cs[x].v})
+					}
+				}
+				for s, rs := range lay.mem {
+					for _, rw := range rs {
+						add(s, rw)
+					}
+				}
+				for _, f := range lay.files {
+					for _, ch := range f.chunks {
+						for _, seg := range ch.segs {
+							for _, rw := range seg {
+								add(ch.s, rw)
+							}
+						}
+					}
+				}
+				if len(ps) == 0 {
+					continue
+				}
+				bt := ps[0].t
+				for _, p := range ps {
+					if (cl.f == "first" && p.t < bt) || (cl.f == "last" && p.t > bt) {
+						bt = p.t
+					}
+				}
+				vals := map[int64]bool{}
+				for _, p := range ps {
+					if p.t == bt {
+						vals[p.v] = true
+					}
+				}
+				if len(vals) > 1 {
+					r.vals[ci].text = "~"
 				}
 			}
 		}
@@ -1520,7 +1584,7 @@ func (h *history) checkpoint(nq int) {
 				raw = rr
 			}
 		}
-		ans, got := h.runAgg(q, raw, keyTwiceIn(lay, q.lo, q.hi))
+		ans, got := h.runAgg(q, raw, lay)
 		emitted := ans
 		if len(q.aux) > 0 && !strings.HasPrefix(ans, "err") {
 			emitted = "ok" // not modelled: the answer is compared with the rows only
@@ -1785,7 +1849,7 @@ func runReplay(c *hx.Ctx, path string) error {
 					raw = rr
 				}
 			}
-			ans, got := h.runAgg(q, raw, keyTwiceIn(lay, q.lo, q.hi))
+			ans, got := h.runAgg(q, raw, lay)
 			emitted := ans
 			if len(q.aux) > 0 && !strings.HasPrefix(ans, "err") {
 				emitted = "ok"
